@@ -1443,11 +1443,11 @@ class Food(UnitConversions):
                 (np.array(self.kcals - other.kcals) > 0).any()
                 or (
                     (np.array(self.fat - other.fat) > 0).any()
-                    and self.conversions.exclude_fat
+                    and self.conversions.include_fat
                 )
                 or (
                     (np.array(self.protein - other.protein) > 0).any()
-                    and self.conversions.exclude_protein
+                    and self.conversions.include_protein
                 )
             )
 
@@ -1489,11 +1489,11 @@ class Food(UnitConversions):
                 (np.array(self.kcals - other.kcals) < 0).any()
                 or (
                     (np.array(self.fat - other.fat) < 0).any()
-                    and self.conversions.exclude_fat
+                    and self.conversions.include_fat
                 )
                 or (
                     (np.array(self.protein - other.protein) < 0).any()
-                    and self.conversions.exclude_protein
+                    and self.conversions.include_protein
                 )
             )
 
@@ -1797,8 +1797,11 @@ class Food(UnitConversions):
             # Check if all macronutrients are greater than zero using numpy's all() function
             return (
                 (np.array(self.kcals) > 0).all()
-                and (np.array(self.fat) > 0).all()
-                and (np.array(self.protein) > 0).all()
+                and ((np.array(self.fat) > 0).all() or self.conversions.exclude_fat)
+                and (
+                    (np.array(self.protein) > 0).all()
+                    or self.conversions.exclude_protein
+                )
             )
 
         # Check if all macronutrients are greater than zero
@@ -1880,9 +1883,9 @@ class Food(UnitConversions):
 
         # Check if all macronutrients are greater than or equal to zero
         return (
-            self.kcals >= 0
-            and (self.fat >= 0 or self.conversions.exclude_fat)
-            and (self.protein >= 0 or self.conversions.exclude_protein)
+            self.kcals >= -threshold
+            and (self.fat >= -threshold or self.conversions.exclude_fat)
+            and (self.protein >= -threshold or self.conversions.exclude_protein)
         )
 
     # Helper functions to get properties of the three nutrient values
